@@ -190,6 +190,7 @@ class MountFS(FS):
 
     def download(self, path, file, chunk_size=None, **options):
         # type: (Text, BinaryIO, Optional[int], **Any) -> None
+        self.check()
         fs, _path = self._delegate(path)
         return fs.download(_path, file, chunk_size=chunk_size, **options)
 
@@ -317,6 +318,7 @@ class MountFS(FS):
         newline="",  # type: Text
     ):
         # type: (...) -> None
+        self.check()
         fs, _path = self._delegate(path)
         return fs.writetext(
             _path, contents, encoding=encoding, errors=errors, newline=newline
